@@ -25,6 +25,7 @@ type Options struct {
 	NoWarmup    bool
 	MaxExecs    int // cap on executions (0 = none); hitting it clears Exhaustive
 	Budget      time.Duration
+	Prune       bool // happens-before state caching (sound only if all cross-thread communication is tracked; see hb.go)
 }
 
 // Run is the per-execution handle given to the harness body.
@@ -113,6 +114,7 @@ type Result struct {
 	CapHit         string         `json:"cap_hit,omitempty"`
 	Outcomes       map[string]int `json:"-"`
 	DistinctOut    int            `json:"distinct_outcomes"`
+	Pruned         int            `json:"pruned_executions,omitempty"`
 	Violations     []Violation    `json:"violations,omitempty"`
 	Samples        []any          `json:"samples,omitempty"`
 	WallS          float64        `json:"wall_s"`
@@ -161,6 +163,8 @@ func (s *sched) configure(o *Options) {
 	s.horizon = o.Horizon
 	s.autoAdvance = o.AutoAdvance
 	s.envCost = int8(o.SelectCost)
+	s.hbOn = o.Prune
+	s.prune = o.Prune && s.visited != nil
 }
 
 func oneExec(o *Options, body func(*Run), prefix []int) (*Run, execResult) {
@@ -198,6 +202,8 @@ func Explore(o Options, body func(*Run)) *Result {
 			deadline = d
 		}
 	}
+	s.visited = nil
+	defer func() { s.visited = nil }()
 	if !o.NoWarmup {
 		oneExec(&o, body, nil)
 	}
@@ -228,13 +234,18 @@ func Explore(o Options, body func(*Run)) *Result {
 		if x.diverged != "" {
 			InfraError("scenario %q: %s (prefix %v)", o.Name, x.diverged, prefix)
 		}
+		if x.pruned {
+			res.Pruned++
+		}
 		execs++
 		points += x.steps
 		if len(x.trace) > maxChoices {
 			maxChoices = len(x.trace)
 		}
 		oc := strings.Join(r.outcome, "|")
-		res.Outcomes[oc]++
+		if !x.pruned {
+			res.Outcomes[oc]++
+		}
 		choices := make([]int, len(x.trace))
 		for i, c := range x.trace {
 			choices[i] = c.chosen
@@ -270,6 +281,7 @@ func Explore(o Options, body func(*Run)) *Result {
 	}
 	for b := 0; b <= o.Bound; b++ {
 		execs, points = 0, 0
+		s.visited = map[stateKey]int16{}
 		for k := range res.Outcomes {
 			delete(res.Outcomes, k)
 		}
@@ -573,7 +585,7 @@ type Report struct {
 
 var notes []string
 
-func Note(format string, a ...any) {
+func AddNote(format string, a ...any) {
 	recMu.Lock()
 	notes = append(notes, fmt.Sprintf(format, a...))
 	recMu.Unlock()
